@@ -252,6 +252,28 @@ class Tok(Atomic):
         return 'Tok(%s,%r)' % (self.d, self.fmt)
 
 
+class HexP(Atomic):
+    """binascii.hexlify of an abstract bytes value (lower case unless .upper() was applied)"""
+    __slots__ = ('inner', 'up', 'chain')
+
+    def __init__(self, inner, up=False, chain=()):
+        self.inner = inner          # bytes or BRope
+        self.up = up
+        self.chain = chain
+
+    def length(self):
+        return 2 * rlen(self.inner)
+
+    def recode(self, op, enc):
+        return HexP(self.inner, self.up, _push(self.chain, op, enc))
+
+    def upper(self):
+        return HexP(self.inner, True, self.chain)
+
+    def __repr__(self):
+        return 'HexP(%r%s)' % (self.inner, ',upper' if self.up else '')
+
+
 class Frag(Piece):
     """elements [a,b) of an atomic piece"""
     __slots__ = ('base', 'a', 'b', 'chain')
@@ -485,6 +507,8 @@ class Rope:
     # ---- codecs
     def _recode(self, op, enc, kind):
         enc = codec_name(enc)
+        if enc in ('utf-8', 'ascii') and all(isinstance(p, HexP) or (isinstance(p, Lit) and p.v.isascii()) for p in self.pieces):
+            return norm(kind, [p.recode(op, 'ascii') for p in self.pieces])
         if enc == 'ascii':
             return self._recode_ascii(op, kind)
         if enc not in TOTAL_CODECS:
@@ -508,6 +532,17 @@ class Rope:
                 raise UnicodeEncodeError('ascii', '\xff', 0, 1, 'ordinal not in range(128) [abstract]')
             out.append(p.recode(op, 'ascii'))
         return norm(kind, out)
+
+    def upper(self):
+        out = []
+        for p in self.pieces:
+            if isinstance(p, Lit):
+                out.append(Lit(p.v.upper()))
+            elif isinstance(p, HexP):
+                out.append(p.upper())
+            else:
+                raise Unsupported('upper() on abstract content')
+        return norm(self.kind, out)
 
     def startswith(self, prefix):
         n = rlen(prefix)
@@ -650,6 +685,19 @@ def seg_eq(p, a, q, b, m):
                 if ok:
                     return s_and(s_eq(xa, 0), s_eq(m, x.length()), s_eq(x.n, int(txt)))
                 return s_eq(m, 0)
+        if isinstance(x, HexP) and isinstance(y, Lit):
+            if isinstance(yb, int) and isinstance(m, int):
+                seg = y.v[yb:yb + m]
+                txt = seg.decode('latin_1') if isinstance(seg, bytes) else seg
+                okcase = txt == (txt.upper() if x.up else txt.lower())
+                try:
+                    raw = bytes.fromhex(txt) if okcase and len(txt) % 2 == 0 else None
+                except ValueError:
+                    raw = None
+                if raw is None:
+                    return s_eq(m, 0)
+                inner_eq = (x.inner == raw) if isinstance(x.inner, Rope) else (x.inner == raw)
+                return s_and(s_eq(xa, 0), s_eq(m, x.length()), inner_eq)
         if isinstance(x, U32) and isinstance(y, Lit):
             if isinstance(yb, int) and isinstance(m, int) and m == 4:
                 return s_and(s_eq(xa, 0), s_eq(x.n, _struct.unpack(x.fmt, y.v[yb:yb + 4])[0]))
@@ -730,6 +778,10 @@ def atom_same(u, v):
         return s_and(u.fmt == v.fmt, s_eq(u.n, v.n))
     if isinstance(u, Tok):
         return u.d is v.d and u.fmt == v.fmt and u.chain == v.chain
+    if isinstance(u, HexP):
+        if u.up != v.up or u.chain != v.chain:
+            return False
+        return rope_eq(u.inner, v.inner)
     return False
 
 
@@ -827,6 +879,9 @@ def _same_piece(p, q):
         return p.fmt == q.fmt and same_int(p.n, q.n)
     if isinstance(p, Tok):
         return p.d is q.d and p.fmt == q.fmt and p.chain == q.chain
+    if isinstance(p, HexP):
+        return p.up == q.up and p.chain == q.chain and (p.inner is q.inner or (not isinstance(p.inner, Rope) and not isinstance(q.inner, Rope) and p.inner == q.inner)
+                                                        or (isinstance(p.inner, Rope) and isinstance(q.inner, Rope) and _same_structure(p.inner, q.inner)))
     if isinstance(p, Frag):
         return _same_piece(p.base, q.base) and p.chain == q.chain and same_int(p.a, q.a) and same_int(p.b, q.b)
     return False
@@ -849,6 +904,30 @@ def concretize_source(src, ev):
     txt = list(_codepoint_fill(src, n))
     if src.kind == 'b':
         data = bytearray(''.join(txt).encode('latin_1'))
+        # numerals that the code parsed out of this source (nondeterministic int() outcomes), written back as text
+        for chain, d in src.derived.items():
+            for (lo, hi), (ok, val) in d.ints.items():
+                a, b = ev(lo), ev(hi)
+                w = b - a
+                if w <= 0 or a < 0 or b > n:
+                    continue
+                if ev(ok):
+                    v = ev(val)
+                    t = ('-' + format(-v, '0%d' % (w - 1))) if v < 0 else format(v, '0%d' % w)
+                else:
+                    t = 'x' * w
+                try:
+                    enc = t
+                    for op, c in reversed(chain):
+                        enc = enc.encode(c) if op == 'd' else enc.decode(c)
+                    if isinstance(enc, bytes) and len(enc) == w:
+                        data[a:b] = enc
+                except Exception:
+                    pass
+        for pos, v in src.__dict__.get('u32s', []):
+            p = ev(pos)
+            if 0 <= p and p + 4 <= n:
+                data[p:p + 4] = _struct.pack('>I', ev(v))
         for pos, chain, v in src.peeks:
             p = ev(pos)
             if 0 <= p < n and not chain:
@@ -899,6 +978,12 @@ def _conc_piece(p, ev, memo, kind):
         return _struct.pack(p.fmt, ev(p.n))
     if isinstance(p, Tok):
         return _apply_chain(p.d.render(p.fmt, ev), p.chain)
+    if isinstance(p, HexP):
+        inner = concretize(p.inner, ev, memo) if isinstance(p.inner, Rope) else p.inner
+        h = inner.hex()
+        h = h.upper() if p.up else h
+        odd = len(p.chain) % 2 == 1
+        return h if (kind == 't') else h.encode('ascii')
     if isinstance(p, Frag):
         whole = _conc_piece(p.base, ev, memo, kind)
         whole = _apply_chain(whole, p.chain)
